@@ -1,5 +1,336 @@
 import FcpptModel.Prelude.Proto
-/-! Driver for C20 — placeholder until the property's model is built. -/
+import FcpptModel.Spec.C20
+/-!
+Driver for C20.  One operation per line (`harness/c20.cpp` runs the same lines against the real templates).
+
+A *segment* is one token `act:p1:p2:n[:tape]`: `act` ∈ `new` (construct a new distribution / variate on the
+same generator), `set` (`basic::param(p)`), `rst` (`basic::reset()`); `p1`,`p2` the two parameters in the base
+type (floating point: bit pattern as a decimal number); `n` draws; `tape` the `n` values the equivalent
+`std::` engine/distribution pair produced at this point of the same history (`-` if `n = 0`).
+
+* `I <T> <deco> <eng> <seed> <ctor> <seg>+` — `basic<uniform_int<R>>`, R = `deco` over `T` ∈ s,i,l;
+  deco ∈ p, s, ss, e1..e9 (enum of that size, bounds are enumerator indices), se3; ctor ∈ v (variate from a
+  distribution), v2 (two-argument constructor of `basic`), vp (variate from parameters), mk (`make_basic`,
+  `make_variate`), d (distribution called directly; the only mode with `set`/`rst`)
+* `EN <k> <eng> <seed> <ctor> <n>:<tape>` — `make_uniform_enum<enum of size k>()`
+* `C <ctype> <eng> <seed> <elems|-> <n>:<tape>` — `make_uniform_indices`, `make_uniform_container`
+* `R <ur|no> <f|d> <p|s> <eng> <seed> <ctor> <seg>+` — `uniform_real`, `normal`
+* `G <eng> <v|q> <seed> <n>:<min>:<max>:<tape>` — raw output of `generator::basic_pseudo` (`ctr`: predicted)
+* `X <T> <deco> <seed> <ctor> <act:a:b:n>+`, `XE <k> <seed> <ctor> <n>`, `XC <seed> <elems|-> <n>` — the same
+  templates over the exactly specified pair `ctrEngine` / `modDist`: everything is predicted, no tape
+
+Result: per segment `seq=<decorated values> min= max= a= b= cf=<convert_from> eq= ne= [ends=]`, segments
+joined by ` | `.  `ends=1` is the prediction "both ends of the interval were drawn" for ≥ 400 draws from an
+interval of at most 17 values (`-` otherwise).
+-/
 namespace Fcppt.C20.Drv
-def main : IO Unit := Fcppt.Proto.run (fun _ => "not-built")
+open Fcppt.Proto Fcppt.C20
+
+def showD {β : Type} (sh : β → String) : DVal β → String
+  | .base x => sh x
+  | .strong v => "S(" ++ showD sh v ++ ")"
+  | .enum x => "E(" ++ sh x ++ ")"
+
+def joinOr (l : List String) : String := if l.isEmpty then "-" else ",".intercalate l
+
+inductive Act | new | set | rst
+  deriving DecidableEq
+
+structure Seg (β : Type) where
+  act : Act
+  a : β
+  b : β
+  n : Nat
+  tape : List β
+
+/-- one engine/distribution instance of the model's parameters, with the glue the driver needs -/
+structure Inst (β δ γ : Type) where
+  D : StdDist β δ
+  G : Gen γ
+  load : Basic δ → List β → Basic δ       -- put the recorded outputs into the replaying distribution
+  sh : β → String
+  ends : β → β → Nat → String
+
+def parseList {β : Type} (rd : String → Option β) (s : String) : Option (List β) :=
+  if s = "-" then some [] else (s.splitOn ",").mapM rd
+
+def parseSeg {β : Type} (rd : String → Option β) (withTape : Bool) (tok : String) : Option (Seg β) :=
+  let f := tok.splitOn ":"
+  let act? : Option Act := match f[0]? with
+    | some "new" => some .new | some "set" => some .set | some "rst" => some .rst | _ => none
+  match act?, f[1]? >>= rd, f[2]? >>= rd, f[3]? >>= String.toNat? with
+  | some act, some a, some b, some n =>
+    if n > 100000 then none
+    else if withTape then
+      if f.length ≠ 5 then none
+      else match f[4]? >>= parseList rd with
+        | some tape => if tape.length = n then some ⟨act, a, b, n, tape⟩ else none
+        | none => none
+    else if f.length ≠ 4 then none else some ⟨act, a, b, n, []⟩
+  | _, _, _, _ => none
+
+section run
+variable {β δ γ : Type}
+
+def readbacks (I : Inst β δ γ) (ty : Ty) (d : Basic δ) (p : Param2 β) (fresh : Bool := true) : String :=
+  let e := Basic.eq I.D (Basic.ctor I.D p) d
+  -- `==` is only observed on a distribution nothing was drawn from yet (std `==` may compare internal state)
+  let (eq, ne) := if fresh then (b01 e, b01 (!e)) else ("-", "-")
+  s!" min={showD I.sh (Basic.min I.D ty d)} max={showD I.sh (Basic.max I.D ty d)} a={I.sh (I.D.param d.dist).1} b={I.sh (I.D.param d.dist).2} cf={I.sh p.convertFrom.1},{I.sh p.convertFrom.2} eq={eq} ne={ne}"
+
+def segLine (I : Inst β δ γ) (s : Seg β) (seq : List (DVal β)) (rb : String) : String :=
+  "seq=" ++ joinOr (seq.map (showD I.sh)) ++ rb ++ I.ends s.a s.b s.n
+
+/-- run the segments; `held` is the distribution object of ctor mode `d` together with its parameters -/
+def runSegs (I : Inst β δ γ) (ty : Ty) (ctor : String) :
+    List (Seg β) → Bool → γ → Option (Basic δ × Param2 β) → List String → Option (List String)
+  | [], _, _, _, acc => some acc.reverse
+  | s :: rest, first, g, held, acc =>
+    let p : Param2 β := ⟨decorate ty s.a, decorate ty s.b⟩
+    if first && s.act ≠ .new then none
+    else if !first && ctor ≠ "d" && s.act ≠ .new then none
+    else if ctor = "d" then
+      let st : Option (Basic δ × Param2 β) := match s.act, held with
+        | .new, _ => some (Basic.ctor I.D p, p)
+        | .set, some (d, _) => some (Basic.setParam I.D d p, p)
+        | .rst, some (d, q) => some (Basic.reset I.D d, q)
+        | _, none => none
+      match st with
+      | none => none
+      | some (d, q) =>
+        let rb := readbacks I ty d q (s.act == .new)
+        let r := runF I.D ty I.G (List.replicate s.n Op.draw) (I.load d s.tape) g
+        runSegs I ty ctor rest false r.2.2 (some (r.2.1, q)) (segLine I s r.1 rb :: acc)
+    else
+      let dv : Option (Basic δ × Variate δ) :=
+        if ctor = "v" || ctor = "mk" then
+          let d := Basic.ctor I.D p
+          some (d, Variate.ctor (I.load d s.tape))
+        else if ctor = "v2" then
+          let d := Basic.ctor2 I.D (decorate ty s.a) (decorate ty s.b)
+          some (d, Variate.ctor (I.load d s.tape))
+        else if ctor = "vp" then
+          let v := Variate.ctorParam I.D p
+          some (Basic.ctor I.D p, ⟨I.load v.distribution s.tape⟩)
+        else none
+      match dv with
+      | none => none
+      | some (d, v) =>
+        let rb := readbacks I ty d p
+        let r := Variate.draws I.D ty I.G s.n v g
+        runSegs I ty ctor rest false r.2.2 none (segLine I s r.1 rb :: acc)
+
+def runOp (I : Inst β δ γ) (ty : Ty) (ctor : String) (segs : List (Seg β)) (g : γ) : String :=
+  if segs.isEmpty then "bad-op"
+  else match runSegs I ty ctor segs true g none [] with
+    | some ls => " | ".intercalate ls
+    | none => "bad-op"
+
+end run
+
+/-! ### instances -/
+
+def intEnds (a b : Int) (n : Nat) : String :=
+  if n ≥ 400 ∧ b - a ≤ 16 then " ends=1" else " ends=-"
+
+abbrev RD (β : Type) := (β × β) × List β
+
+def loadTape {β : Type} (b : Basic (RD β)) (tape : List β) : Basic (RD β) := Basic.load b tape
+
+/-- replay of `std::uniform_int_distribution` -/
+def instInt : Inst Int (RD Int) Unit :=
+  ⟨replayDist 0 (·.1) (·.2), basicPseudo unitGen, loadTape, toString, intEnds⟩
+
+/-- replay of `std::uniform_real_distribution` on bit patterns: `min() = a`, `max() = b` -/
+def instReal : Inst Nat (RD Nat) Unit :=
+  ⟨replayDist 0 (·.1) (·.2), basicPseudo unitGen, loadTape, toString, fun _ _ _ => ""⟩
+
+/-- replay of `std::normal_distribution`: `min() = numeric_limits::lowest()`, `max() = numeric_limits::max()` -/
+def instNormal (lowest max : Nat) : Inst Nat (RD Nat) Unit :=
+  ⟨replayDist 0 (fun _ => lowest) (fun _ => max), basicPseudo unitGen, loadTape, toString, fun _ _ _ => ""⟩
+
+/-- the exactly specified pair -/
+def instExact : Inst Int (Int × Int) Nat :=
+  ⟨modDist, basicPseudo ctrEngine, fun b _ => b, toString, intEnds⟩
+
+/-! ### parsing of type codes -/
+
+def intRange : String → Option (Int × Int)
+  | "s" => some (-32768, 32767)
+  | "i" => some (-2147483648, 2147483647)
+  | "l" => some (-9223372036854775808, 9223372036854775807)
+  | _ => none
+
+/-- deco code → (type shape, size of the enum if the innermost type is an enum) -/
+def parseDeco (d : String) : Option (Ty × Option Nat) :=
+  if d = "p" then some (.base, none)
+  else if d = "s" then some (.strong .base, none)
+  else if d = "ss" then some (.strong (.strong .base), none)
+  else if d = "se3" then some (.strong .enum, some 3)
+  else if d.length = 2 ∧ d.front = 'e' then
+    match (d.drop 1).toNat? with
+    | some k => if 1 ≤ k ∧ k ≤ 9 then some (.enum, some k) else none
+    | none => none
+  else none
+
+def segsInRange (lo hi : Int) (segs : List (Seg Int)) : Bool :=
+  -- the recorded std values must satisfy the standard's contract `a ≤ x ≤ b` (a tape that does not is
+  -- rejected, which shows up as a difference)
+  segs.all fun s => lo ≤ s.a && s.a ≤ s.b && s.b ≤ hi && s.tape.all (fun x => s.a ≤ x && x ≤ s.b)
+
+def isEng (e : String) : Bool := e = "minstd" || e = "mt"
+
+def seedOk (eng : String) (seed : Nat) : Bool :=
+  if eng = "minstd" then seed < 18446744073709551616 else seed < 18446744073709551616
+
+def opI (t d eng seed ctor : String) (segToks : List String) : String :=
+  match intRange t, parseDeco d, seed.toNat?, segToks.mapM (parseSeg String.toInt? true) with
+  | some (lo, hi), some (ty, en), some sd, some segs =>
+    let (lo, hi) : Int × Int := match en with
+      | some k => (0, Int.ofNat k - 1)
+      | none => (lo, hi)
+    if !isEng eng || !seedOk eng sd || (en.isSome && t ≠ "i") || !segsInRange lo hi segs then "bad-op"
+    else runOp instInt ty ctor segs ()
+  | _, _, _, _ => "bad-op"
+
+def opX (t d seed ctor : String) (segToks : List String) : String :=
+  match intRange t, seed.toNat?, segToks.mapM (parseSeg String.toInt? false) with
+  | some (lo, hi), some sd, some segs =>
+    let ty? : Option (Ty × Int × Int) :=
+      if d = "p" then some (.base, lo, hi) else if d = "s" then some (.strong .base, lo, hi)
+      else if d = "e5" ∧ t = "i" then some (.enum, 0, 4) else none
+    match ty? with
+    | some (ty, lo, hi) =>
+      if sd ≥ 4294967296 || !segsInRange lo hi segs || !segs.all (fun s => s.b - s.a < 2147483648) then "bad-op"
+      else runOp instExact ty ctor segs (basicPseudoSeed (fun s => s) (DVal.strong (.base sd)))
+    | none => "bad-op"
+  | _, _, _ => "bad-op"
+
+def floatBits (t : String) : Option Nat := if t = "f" then some 32 else if t = "d" then some 64 else none
+
+def opR (kind t d eng seed ctor : String) (segToks : List String) : String :=
+  match floatBits t, parseDeco d, seed.toNat?, segToks.mapM (parseSeg String.toNat? true) with
+  | some bits, some (ty, none), some sd, some segs =>
+    if !isEng eng || !seedOk eng sd || (d ≠ "p" ∧ d ≠ "s")
+        || !segs.all (fun s => s.a < 2 ^ bits && s.b < 2 ^ bits && s.tape.all (· < 2 ^ bits)) then "bad-op"
+    else if kind = "ur" then runOp instReal ty ctor segs ()
+    else if kind = "no" then
+      let inst := if bits = 32 then instNormal 4286578687 2139095039 else instNormal 18442240474082181119 9218868437227405311
+      runOp inst ty ctor segs ()
+    else "bad-op"
+  | _, _, _, _ => "bad-op"
+
+/-- one `n[:tape]` token of the single-segment operations -/
+def parseNTape (withTape : Bool) (tok : String) : Option (Nat × List Int) :=
+  let f := tok.splitOn ":"
+  match f[0]? >>= String.toNat? with
+  | some n =>
+    if n > 100000 then none
+    else if withTape then
+      if f.length ≠ 2 then none
+      else match f[1]? >>= parseList String.toInt? with
+        | some tape => some (n, tape)
+        | none => none
+    else if f.length ≠ 1 then none else some (n, [])
+  | none => none
+
+/-- enum factory: the model computes the interval from the enum's size -/
+def enumOp {δ γ : Type} (I : Inst Int δ γ) (k : Nat) (ctor : String) (n : Nat) (tape : List Int) (g : γ) : String :=
+  let p := makeUniformEnum (k - 1)
+  let ty := Ty.enum
+  let d := Basic.ctor I.D p
+  let rb := readbacks I ty d p
+  let seq? : Option (List (DVal Int)) :=
+    if ctor = "d" then some (runF I.D ty I.G (List.replicate n Op.draw) (I.load d tape) g).1
+    else if ctor = "v" then some (Variate.draws I.D ty I.G n (Variate.ctor (I.load d tape)) g).1
+    else if ctor = "vp" then some (Variate.draws I.D ty I.G n ⟨I.load (Variate.ctorParam I.D p).distribution tape⟩ g).1
+    else none
+  match seq? with
+  | some seq => "seq=" ++ joinOr (seq.map (showD I.sh)) ++ rb ++ I.ends 0 (Int.ofNat k - 1) n
+  | none => "bad-op"
+
+def opEN (k eng seed ctor tok : String) : String :=
+  match k.toNat?, seed.toNat?, parseNTape true tok with
+  | some k, some sd, some (n, tape) =>
+    if k < 1 || k > 9 || !isEng eng || !seedOk eng sd || tape.length ≠ n
+        || !tape.all (fun x => 0 ≤ x && x < Int.ofNat k) then "bad-op"
+    else enumOp instInt k ctor n tape ()
+  | _, _, _ => "bad-op"
+
+def opXE (k seed ctor tok : String) : String :=
+  match k.toNat?, seed.toNat?, parseNTape false tok with
+  | some k, some sd, some (n, _) =>
+    if (k ≠ 1 ∧ k ≠ 5 ∧ k ≠ 9) || sd ≥ 4294967296 then "bad-op"
+    else enumOp instExact k ctor n [] (basicPseudoSeed (fun s => s) (DVal.strong (.base sd)))
+  | _, _, _ => "bad-op"
+
+/-- container factories -/
+def containerOp {δ γ : Type} (I : Inst Int δ γ) (elems : List Int) (n : Nat) (tape : List Int) (g : γ) : String :=
+  let ind := match makeUniformIndices elems with
+    | none => "none"
+    | some p => s!"{p.convertFrom.1},{p.convertFrom.2}"
+  match makeUniformContainer I.D elems with
+  | none => s!"ind={ind} cont=none"
+  | some u =>
+    match UniformContainer.draws I.D I.G n ⟨u.container, I.load u.distribution tape⟩ g with
+    | .ok r => s!"ind={ind} cont=some seq={joinOr (r.1.map (fun e => toString e.1))} idx={joinOr (r.1.map (fun e => toString e.2))}"
+    | .error f => s!"ind={ind} cont=some {f.name}"
+
+def elemRange (ct : String) : Option (Int × Int) :=
+  if ct = "vm" then intRange "l" else if ct = "vc" ∨ ct = "dq" ∨ ct = "adv" then intRange "i" else none
+
+def opC (ct eng seed elems tok : String) : String :=
+  match elemRange ct, seed.toNat?, parseIntList elems, parseNTape true tok with
+  | some (lo, hi), some sd, some es, some (n, tape) =>
+    if !isEng eng || !seedOk eng sd || !es.all (fun x => lo ≤ x && x ≤ hi) then "bad-op"
+    else if es.isEmpty then containerOp instInt es n [] ()
+    else if tape.length ≠ n || !tape.all (fun x => 0 ≤ x && x < Int.ofNat es.length) then "bad-op"
+    else containerOp instInt es n tape ()
+  | _, _, _, _ => "bad-op"
+
+def opXC (seed elems tok : String) : String :=
+  match seed.toNat?, parseIntList elems, parseNTape false tok with
+  | some sd, some es, some (n, _) =>
+    if sd ≥ 4294967296 || !es.all (fun x => -2147483648 ≤ x && x ≤ 2147483647) then "bad-op"
+    else containerOp instExact es n [] (basicPseudoSeed (fun s => s) (DVal.strong (.base sd)))
+  | _, _, _ => "bad-op"
+
+/-- raw generator output: `basic_pseudo` over a replayed engine (or over `ctrEngine`) -/
+def rawDraws {γ : Type} (G : Gen γ) : Nat → γ → List Nat
+  | 0, _ => []
+  | n + 1, g => let r := G.next g; r.1 :: rawDraws G n r.2
+
+def tapeEngine (mn mx : Nat) : Gen (List Nat) :=
+  ⟨fun t => match t with | [] => (0, []) | x :: r => (x, r), mn, mx⟩
+
+def opG (eng mode seed tok : String) : String :=
+  let f := tok.splitOn ":"
+  match seed.toNat?, f[0]? >>= String.toNat?, f[1]? >>= String.toNat?, f[2]? >>= String.toNat?, f[3]? >>= parseNatList with
+  | some sd, some n, some mn, some mx, some tape =>
+    if f.length ≠ 4 || n > 100000 then "bad-op"
+    else if eng = "ctr" then
+      if mode ≠ "v" || sd ≥ 4294967296 || !tape.isEmpty then "bad-op"
+      else
+        let G := basicPseudo ctrEngine
+        s!"seq={joinOr ((rawDraws G n (basicPseudoSeed (fun s => s) (DVal.strong (.base sd)))).map toString)} min={G.min} max={G.max}"
+    else if !isEng eng || (mode ≠ "v" ∧ mode ≠ "q") || tape.length ≠ n || !seedOk eng sd then "bad-op"
+    else
+      let G := basicPseudo (tapeEngine mn mx)
+      s!"seq={joinOr ((rawDraws G n tape).map toString)} min={G.min} max={G.max}"
+  | _, _, _, _, _ => "bad-op"
+
+def handle (toks : List String) : String :=
+  match toks with
+  | "I" :: t :: d :: eng :: seed :: ctor :: segs => opI t d eng seed ctor segs
+  | "X" :: t :: d :: seed :: ctor :: segs => opX t d seed ctor segs
+  | "R" :: kind :: t :: d :: eng :: seed :: ctor :: segs => opR kind t d eng seed ctor segs
+  | ["EN", k, eng, seed, ctor, tok] => opEN k eng seed ctor tok
+  | ["XE", k, seed, ctor, tok] => opXE k seed ctor tok
+  | ["C", ct, eng, seed, elems, tok] => opC ct eng seed elems tok
+  | ["XC", seed, elems, tok] => opXC seed elems tok
+  | ["G", eng, mode, seed, tok] => opG eng mode seed tok
+  | _ => "bad-op"
+
+def main : IO Unit := Proto.run handle
+
 end Fcppt.C20.Drv
